@@ -27,7 +27,7 @@ Print Assumptions C07_diff_local.
    that carries it, whatever the change was (same root cause as C06_quiet_refuted) *)
 Open Scope N_scope.
 Definition bad7_A : schema :=
-  [mkTable 0 [mkCol 0 (mkTy 0 []) false true None; mkCol 1 (mkTy 3 [20]) true false (Some (DLit [40;97;41])); mkCol 2 (mkTy 0 []) true false None] [] []].
+  [mkTable 0 [mkCol 0 (mkTy 0 []) false true None true; mkCol 1 (mkTy 3 [20]) true false (Some (DLit [40;97;41])) true; mkCol 2 (mkTy 0 []) true false None true] [] []].
 Theorem C07_nothing_unrelated_refuted : exists g A m, wf_schemab A = true /\ applicable m A = true /\ wf_schemab (apply_mut m A) = true /\
   ~ nothing_else A m (diff g (reflect_sqlite A) (apply_mut m A)).
 Proof. exists (mkCfg true true), bad7_A, (MFlipNullable 0 2). repeat (split; [reflexivity|]).
@@ -48,12 +48,12 @@ Print Assumptions C07_model_holds.
 (* non-vacuity: every mutation kind of the catalogue is applicable to a concrete well-formed schema, is detected, and the
    decider accepts the model's output *)
 Definition ex7_A : schema :=
-  [mkTable 0 [mkCol 0 (mkTy 0 []) false true None; mkCol 1 (mkTy 3 [20]) true false (Some (DLit [53])); mkCol 2 (mkTy 5 [10;2]) true false None]
+  [mkTable 0 [mkCol 0 (mkTy 0 []) false true None true; mkCol 1 (mkTy 3 [20]) true false (Some (DLit [53])) true; mkCol 2 (mkTy 5 [10;2]) true false None true]
              [Uq 1 [1]; Ix 2 [2;1] false] [mkFk 1 [2] 0 [0] no_opts true];
-   mkTable 1 [mkCol 0 (mkTy 0 []) false true None] [] []].
+   mkTable 1 [mkCol 0 (mkTy 0 []) false true None true; mkCol 7 (mkTy 0 []) true false (Some (DComputed [99;48;32;43;32;49] None)) false] [] []].
 Definition ex7_muts : list mut :=
-  [MAddTable (mkTable 2 [mkCol 0 (mkTy 0 []) false true None] [Ix 20 [0] false] [mkFk 20 [0] 0 [0] no_opts true]); MDropTable 1;
-   MAddColumn 1 (mkCol 5 (mkTy 4 []) true false (Some (DExpr [49]))); MDropColumn 1 0; MFlipNullable 0 1; MChangeType 0 2 (mkTy 9 []);
+  [MAddTable (mkTable 2 [mkCol 0 (mkTy 0 []) false true None true] [Ix 20 [0] false] [mkFk 20 [0] 0 [0] no_opts true]); MDropTable 1;
+   MAddColumn 1 (mkCol 5 (mkTy 4 []) true false (Some (DExpr [49])) true); MDropColumn 1 0; MFlipNullable 0 1; MFlipNullable 1 7 (* a generated column whose nullable was unset *); MChangeType 0 2 (mkTy 9 []);
    MChangeDefault 0 1 None; MChangeDefault 0 1 (Some (DExpr [39;54;39])); MChangeDefault 0 2 (Some (DLit [120]));
    MAddCons 0 (Uq 3 [2]); MAddCons 0 (Ix 4 [0] true); MDropCons 0 1; MDropCons 0 2; MChangeCons 0 (Uq 1 [2]); MChangeCons 0 (Ix 2 [2;1] true);
    MAddFk 0 (mkFk 2 [1;2] 0 [1;0] no_opts true); MAddFk 1 (mkFk 10 [0] 0 [0] no_opts true); MDropFk 0 1].
